@@ -1,5 +1,11 @@
 """C12 — fields and forests keep their structural invariants.
 
+Wave 4: translator (harness/props/c12_translate.py -> Gen/C12Source.lean) for the tests and update expressions of
+field.py / forest.py / `_graph.pyx` dilation, tied to the model by the `*_as_modelled` theorems of Props/C12Source;
+first-appearance numbering of cc() labels, distances along ancestry, the climb of leaves_of_a_subtree, split(k) with
+k at most the number of trees (Props/C12N); the same numbers in Fortran / strided / negative-stride / read-only
+layouts.
+
 Second extension wave: threshold_bifurcations = component tree of the superlevel sets (Props/C12U, `bifk` lines: cut
 index per level), forest leftovers (Props/C12G, C12P), subfield renumbering and basin numbering (Props/C12R), the value
 of a local_maxima depth (Props/C12L), Field histories with a dtype flag and graph edits in the model.
@@ -161,6 +167,27 @@ def gen_field(rng, V, dim, style=None):
 DTYPES = ["float64"] * 6 + ["float32", "int64", "int32", "int16", "int8", "uint8", "uint16", "uint32"]
 
 
+# the same numbers in another memory layout: Fortran order, a strided view into a larger buffer, a negative-stride
+# view, a read-only array (the last one only for the analyses that are documented not to write the field)
+LAYOUTS = ["C"] * 4 + ["F", "strided", "neg"]
+
+
+def lay_out(a, layout):
+    a = np.array(a, copy=True)
+    if layout == "F":
+        return np.asfortranarray(a)
+    if layout == "strided":
+        big = np.zeros(tuple(2 * n for n in a.shape), dtype=a.dtype)
+        v = big[tuple(slice(None, None, 2) for _ in a.shape)]
+        v[...] = a
+        return v
+    if layout == "neg":
+        return np.array(a[::-1], copy=True)[::-1]
+    if layout == "readonly":
+        a.setflags(write=False)
+    return a
+
+
 def cast_field(F, dt):
     """values exactly representable in `dt`: integers for integer types, non-negative (zeros kept, so that a 0 sits
     next to non-zero values) for unsigned ones"""
@@ -203,7 +230,9 @@ def gen_parents(rng, V):
 
 
 def forest_extras(rng, V):
-    return {"valid": [int(rng.random() < 0.65) for _ in range(V)],
+    return {"pdtype": rng.choice(["int64"] * 5 + ["int32", "int16", "int8", "uint8", "uint16", "uint32"]),
+            "playout": rng.choice(["C"] * 4 + ["strided", "neg", "readonly"]),
+            "valid": [int(rng.random() < 0.65) for _ in range(V)],
             "prop": [int(rng.random() < 0.6) for _ in range(V)],
             "label": [rng.choice([0, 1, 1, 2, 3]) for _ in range(V)],
             # WeightedForest: heights (from the depth, halved depth = ties, or arbitrary), cut level, k
@@ -229,9 +258,10 @@ class C12(PropertyCheck):
     title = "Fields and forests keep their structural invariants"
     lean_modules = ["NipyVerif.Props.C12", "NipyVerif.Props.C12B", "NipyVerif.Props.C12F",
                     "NipyVerif.Props.C12W", "NipyVerif.Props.C12U", "NipyVerif.Props.C12G", "NipyVerif.Props.C12P",
-                    "NipyVerif.Props.C12R", "NipyVerif.Props.C12L"]
+                    "NipyVerif.Props.C12R", "NipyVerif.Props.C12L", "NipyVerif.Props.C12Source",
+                    "NipyVerif.Props.C12N"]
     driver = "Drivers/C12.lean"
-    rule = ("cases are (graph, field, operator arguments), (parent array, sub-forest mask, property, labels, "
+    rule = ("cases are (graph, field with its dtype and memory layout, operator arguments), (parent array, sub-forest mask, property, labels, "
             "heights, cut level, k), operation HISTORIES on one Forest object (every public method, queries before "
             "and after every in-place / continue-on-result call, oversized raw arguments materialised against the "
             "object as it is when the step is reached) and on one Field object (in-place morphology, diffusion, "
@@ -264,6 +294,12 @@ class C12(PropertyCheck):
         "directed graphs the model is still run against the code (bif, bifk lines) but only 'labels exactly the "
         "above-threshold vertices' is claimed; concrete values of the sweep cannot be `decide`d in the kernel "
         "(List.mergeSort is well-founded), non-vacuity is by the general existence lemma + correspondence",
+        "source tie: Gen/C12Source.lean is regenerated from the text of field.py, forest.py and the `dilation` routine "
+        "of _graph.pyx before every build (comparison operators, reducers max/min/argmax, whether a vertex belongs to "
+        "its own neighbourhood, loop bounds, guards, update expressions as Lean terms; statement sequences as text); a "
+        "source shape the translator does not recognise is a broken obligation; what the translator reads as text "
+        "only (e.g. that `np.unique` sorts, that `tolil().rows` are sorted column indices) stays an assumption on "
+        "NumPy / SciPy",
         "WeightedForest.plot / plot_height (matplotlib drawing) are excluded; the agglomeration routines of "
         "hierarchical_clustering.py (ward*, average_link*, fusion, _inertia*, _label*) belong to C14",
     ]
@@ -294,11 +330,33 @@ class C12(PropertyCheck):
                   "the parent map; after ANY history of public Forest methods the object is coherent, a forest, and "
                   "every query answers for the current parents; the unpatched reorder (stale cache) and range guard are "
                   "shown to break this; WeightedForest height monotone along ancestry, cuts keep whole subtrees. "
-                  "By correspondence and oracle only: first-occurrence numbering of cc()/partition labels and "
-                  "split(k) class counts, leaves_of_a_subtree, all_distances, tree_depth relation, "
-                  "constrained_voronoi / geodesic_kmeans / ward values, bifurcations on directed graphs")
+                  "Source tie (Props/C12Source): every test / update expression of dilation (both paths, dtype switch, "
+                  "E > 0 guard), erosion, highest_neighbor, opening / closing call order, local_maxima (threshold, start, "
+                  "non-maximum test, depth update, final test and value), watershed and bifurcation thresholds, "
+                  "_argmax_within, the sweep step of threshold_bifurcations, Forest.__init__ guards, check, "
+                  "define_graph_attributes, compute_children / isleaf / isroot, index guards, subforest, "
+                  "merge_simple_branches, depth_from_leaves, tree_depth, reorder_from_leaves_to_roots, "
+                  "propagate_upward(_and) is proved equal to the "
+                  "term regenerated from the source. cc() numbers the trees by first appearance (label of the first "
+                  "vertex of a tree = number of distinct trees before it), hence so do partition / split on the leaves; "
+                  "nbcc = cc().max() + 1 is the number of trees; split(k) with k <= nbcc returns the trees; all_distances: 0 on the diagonal, k to the "
+                  "ancestor first reached after k parent steps, inf exactly without a common ancestor, a finite value "
+                  "is i + j through the first common ancestor with i and j minimal; the climb of leaves_of_a_subtree ends at an ancestor "
+                  "whose subtree holds the common ancestor so far, or gives up only at a root that misses it (partial). "
+                  "By correspondence and oracle only: split(k) class counts above the number of trees, the final answer "
+                  "of leaves_of_a_subtree, that floyd() on the unit-weight edge array yields the tree-path length the "
+                  "model computes (all_distances is compared value by value), constrained_voronoi "
+                  "/ geodesic_kmeans / ward values (Dijkstra and sqrt are outside the exact model; only the squared "
+                  "edge-length term and the stop test are tied to the source), bifurcations on directed graphs (the "
+                  "component tree is a notion of undirected connectivity: only the labelling clause is claimed)")
     finding_keys = {"forest-parent-range": "Forest/WeightedForest constructor accepts parent entries equal to V or "
                                            "negative (NumPy wrap-around): rootless or unusable objects"}
+
+    # ------------------------------------------------------------------
+    def translators(self):
+        from harness.core import REPO, TieBroken
+        from harness.props import c12_translate
+        return c12_translate.translate(REPO, TieBroken)
 
     # ------------------------------------------------------------------
     def generate(self, rng, tier):
@@ -315,7 +373,7 @@ class C12(PropertyCheck):
             dt = rng.choice(DTYPES)
             F = cast_field(F, dt)
             cases.append({"kind": "morph", "V": V, "edges": E, "field": F, "dtype": dt,
-                          "n": rng.choice([1, 1, 1, 2, 3, 0])})
+                          "n": rng.choice([1, 1, 1, 2, 3, 0]), "layout": rng.choice(LAYOUTS)})
         for _ in range(n_d):
             V = rand_V(rng)
             E, gk = gen_graph(rng, V)
@@ -341,7 +399,8 @@ class C12(PropertyCheck):
                 th = rng.choice(vals) + 0.25
             else:
                 th = vals[-1] + 1.0                        # nothing above threshold
-            cases.append({"kind": "thresh", "V": V, "edges": E, "field": F, "refdim": refdim, "th": th, "dtype": dt})
+            cases.append({"kind": "thresh", "V": V, "edges": E, "field": F, "refdim": refdim, "th": th, "dtype": dt,
+                          "layout": rng.choice(LAYOUTS + ["readonly", "readonly"])})
         # operation histories on one Field object
         for _ in range(n_fh):
             V = rng.choice([1, 2, 3, 3, 4, 4, 5, 6, 7, 8])
@@ -405,7 +464,7 @@ class C12(PropertyCheck):
         w = np.array([e[2] for e in E], dtype=float)
         if data is None:
             data = np.array(c["field"], dtype=c.get("dtype", "float64"))
-        return Field(c["V"], edges, w, np.array(data, copy=True))
+        return Field(c["V"], edges, w, lay_out(data, c.get("layout", "C")))
 
     @staticmethod
     def _nbrs(c, closed=True):
@@ -436,7 +495,7 @@ class C12(PropertyCheck):
         data = np.array(c["field"], dtype=c.get("dtype", "float64"))
         g, f = gtxt(V, c["edges"]), ftxt(data)
         is64 = data.dtype == np.float64
-        lines, impl, fails, tags = [], [], [], ["morph", "dtype=" + str(data.dtype)]
+        lines, impl, fails, tags = [], [], [], ["morph", "dtype=" + str(data.dtype), "layout=" + c.get("layout", "C")]
         nb = self._nbrs(c)
         sym = self._symmetric(c)
         tags.append("symmetric" if sym else "directed")
@@ -549,7 +608,8 @@ class C12(PropertyCheck):
         nbv = [[j for j in nbc[i] if valid[j]] for i in range(V)]
         sym = self._symmetric(c)
         lines, impl, fails = [], [], []
-        tags = ["thresh", "dtype=" + c.get("dtype", "float64"), f"dim={data.shape[1]}", "th=" + ("-inf" if th is None else
+        tags = ["thresh", "dtype=" + c.get("dtype", "float64"), "layout=" + c.get("layout", "C"),
+                f"dim={data.shape[1]}", "th=" + ("-inf" if th is None else
                                                             "none-above" if not valid.any() else "cut")]
 
         def call(name, *a, **k):
@@ -711,8 +771,13 @@ class C12(PropertyCheck):
     def _forest(self, c):
         from nipy.algorithms.graph.forest import Forest
         V, ps = c["V"], c["parents"]
-        parr = np.array(ps, dtype=np.int_)
-        lines, impl, fails, tags = [f"forest {V} {plist(ps)}"], [], [], ["forest"]
+        # the same parent numbers in another integer type / memory layout (unsigned only when nothing is negative)
+        dt = c.get("pdtype", "int64")
+        if any(x < 0 for x in ps) and dt.startswith("uint") or any(abs(x) > 120 for x in ps):
+            dt = "int64"
+        parr = lay_out(np.array(ps, dtype=dt), c.get("playout", "C"))
+        lines, impl, fails, tags = [f"forest {V} {plist(ps)}"], [], [], ["forest", "pdtype=" + dt,
+                                                                         "playout=" + c.get("playout", "C")]
         snap = Snapshot(p=parr)
         try:
             F = Forest(V, parr)
